@@ -275,10 +275,10 @@ func (i ItemCollection) Equals(with Item) bool {
 			return nil
 		}
 		for _, it := range i {
-			var needle Item = it.GetLink()
-			if len(it.GetLink()) == 0 {
-				// NOTE(marius): members without an id can only be compared in full
-				needle = it
+			// NOTE(marius): nil members and members without an id can only be compared in full
+			var needle Item = it
+			if !IsNil(it) && len(it.GetLink()) > 0 {
+				needle = it.GetLink()
 			}
 			if !w.Contains(needle) {
 				result = false
